@@ -30,8 +30,11 @@ def run(chk, repo, tier):
     chk.clause('C07-e', 'wavelength unchanged, focal length forwarded, Pupil hands over its focal length after delegating', 4)
     chk.clause('C07-f', 'a plane with default attributes is the identity (phasor folds to 1)', 1)
     chk.clause('C07-g', 'inconsistent pixel scales are refused (both components compared)', 1)
+    chk.clause('C07-h', 'a new wavefront is the unit plane wave; an empty wavefront has no fields', 2)
     chk.not_decided += ['numerical values of the field']
 
+    from .extra_rules import wavefront_ctor_rules
+    wavefront_ctor_rules(chk, repo, 'C07-h')
     # ---------------------------------------------------------------- C07-a
     coherent(chk, repo, 'C07-a')
     from .common import Remap
